@@ -5,10 +5,38 @@ import os
 import numpy as np
 
 
-def make_ocr_engine_dir(path, chars, H=16, seed=0, blank_bias=6.0, wscale=0.6):
+def make_ocr_engine_dir(path, chars, H=16, seed=0, blank_bias=6.0, wscale=0.6, masked=(), embed_num=None, embed_id=None):
     """TorchScript Conv2d(3, C, (H,4), stride (1,4)): frame t depends on pixel columns [4t, 4t+4) only; all-zero
-    padding decodes to blank (blank bias). Saved as <ckpt>.cpu + JSON, loadable by PytorchEngineLineOCR.__init__."""
+    padding decodes to blank (blank bias). Saved as <ckpt>.cpu + JSON, loadable by PytorchEngineLineOCR.__init__.
+    masked: symbol indices whose logit is always -inf (a model with a restricted alphabet).
+    embed_num: a two-input network (image, embedding id) with an `embeddings_layer` adding a per-id bias to every frame."""
     import torch
+
+    if embed_num is not None:
+        class EmbNet(torch.nn.Module):
+            def __init__(self, H, C, seed):
+                super().__init__()
+                g = torch.Generator().manual_seed(seed)
+                self.conv = torch.nn.Conv2d(3, C, kernel_size=(H, 4), stride=(1, 4))
+                self.embeddings_layer = torch.nn.Embedding(embed_num + 1, C)
+                with torch.no_grad():
+                    self.conv.weight.copy_(torch.randn(self.conv.weight.shape, generator=g) * wscale)
+                    self.conv.bias.zero_()
+                    self.conv.bias[C - 1] = blank_bias
+                    # non-positive per-id biases on the characters, none on blank: all-zero padding still decodes to blank for every id
+                    self.embeddings_layer.weight.copy_(-torch.abs(torch.randn(self.embeddings_layer.weight.shape, generator=g)) * 3.0)
+                    self.embeddings_layer.weight[:, C - 1] = 0.0
+
+            def forward(self, x, ids):
+                return self.conv(x)[:, :, 0, :] + self.embeddings_layer(ids)[:, :, None]
+
+        os.makedirs(path, exist_ok=True)
+        net = EmbNet(H, len(chars) + 1, seed).eval()
+        torch.jit.save(torch.jit.script(net), os.path.join(path, 'ocr.pt.cpu'))
+        cfg = {'line_px_height': H, 'line_vertical_scale': 1.0, 'checkpoint': 'ocr.pt', 'characters': list(chars), 'net_name': 'stub', 'embed_num': embed_num, 'embed_id': embed_id}
+        with open(os.path.join(path, 'ocr.json'), 'w', encoding='utf8') as f:
+            json.dump(cfg, f)
+        return os.path.join(path, 'ocr.json'), net
 
     class StubNet(torch.nn.Module):
         def __init__(self, H, C, seed):
@@ -19,6 +47,8 @@ def make_ocr_engine_dir(path, chars, H=16, seed=0, blank_bias=6.0, wscale=0.6):
                 self.conv.weight.copy_(torch.randn(self.conv.weight.shape, generator=g) * wscale)
                 self.conv.bias.zero_()
                 self.conv.bias[C - 1] = blank_bias
+                for m in masked:
+                    self.conv.bias[m] = float('-inf')
 
         def forward(self, x):
             return self.conv(x)[:, :, 0, :]
